@@ -71,3 +71,25 @@ Theorem C07_trials_bounded_under_concurrency :
   forall n maxreq sched, 0 <= maxreq -> s2_ok maxreq (fst (s2_run n maxreq sched)) = true.
 Proof. exact s2_all_schedules. Qed.
 Print Assumptions C07_trials_bounded_under_concurrency.
+
+From Helios Require Import Gen.BreakerGen Proofs.BreakerRefine.
+
+(* The model IS the source: its admission and completion steps are beforeRequest / afterRequest of circuitbreaker.go as go2coq
+   regenerates them on every run (Gen/BreakerGen.v), field for field; times are positive, which every history starting at a
+   positive instant preserves. *)
+Theorem C07_model_is_source_admission :
+  forall cfg s rid l, bwf_cfg cfg -> times_pos s ->
+    cb_beforeRequest (abs_cb cfg s l) (bnow s) = (abs_cb cfg (fst (begin cfg s rid)) l, snd (begin cfg s rid)).
+Proof. exact before_refines. Qed.
+Print Assumptions C07_model_is_source_admission.
+
+Theorem C07_model_is_source_completion :
+  forall cfg s rid ok l,
+    fst (cb_afterRequest (abs_cb cfg s l) (bnow s) ok) = abs_cb cfg (finish cfg s rid ok) (if ok then bnow s else l).
+Proof. exact after_refines. Qed.
+Print Assumptions C07_model_is_source_completion.
+
+Theorem C07_times_positive_invariant :
+  forall cfg s o, bop_wf o -> times_pos s -> times_pos (fst (bstep cfg s o)).
+Proof. exact times_pos_step. Qed.
+Print Assumptions C07_times_positive_invariant.
